@@ -50,8 +50,9 @@ type subtable struct {
 }
 
 type synthCase struct {
-	Subtables  []subtable     `json:"subtables"` // sorted by (platform, encoding) as the specification requires
-	FontPage   uint16         `json:"font_page"` // OS/2 font page argument of ProcessCmap
+	Subtables  []subtable     `json:"subtables"`     // sorted by (platform, encoding) as the specification requires
+	FontPage   uint16         `json:"font_page"`     // OS/2 font page argument of ProcessCmap
+	OS2        *os2Spec       `json:"os2,omitempty"` // OS/2 table of the font built around the cmap table
 	Exhaustive bool           `json:"exhaustive"`
 	Disc       *disc          `json:"discrepancy,omitempty"`
 	Count      map[string]int `json:"discrepancy_counts,omitempty"`
@@ -430,6 +431,17 @@ func checkSynth(t ev.TB, c *synthCase) {
 		labels = append(labels, "multi_subtable")
 	}
 	ev.Case(nontrivial, data, labels...)
+	if first == nil && rp.counts[dIterRunaway] == 0 {
+		// font level: the same table inside a minimal font file, through the loader and both
+		// scanning paths
+		fl, failure := checkSynthFont(c, cm)
+		for _, l := range fl {
+			ev.Label(l)
+		}
+		if failure != "" {
+			ev.Fail(t, "synth", &cc, "synthetic font (%s, OS/2 %+v): %s", rp.typeName, c.os2(), failure)
+		}
+	}
 	if first != nil {
 		cc.Disc, cc.Count = first, rp.counts
 		ev.Fail(t, "synth", &cc, "synthetic cmap (%s): %s  [all discrepancies: %v, of which matched by listed findings: %v]", rp.typeName, first.Msg, rp.counts, rp.excused)
@@ -804,6 +816,13 @@ func genSynth(t *rapid.T) *synthCase {
 		return a.Platform < b.Platform || a.Platform == b.Platform && a.Encoding < b.Encoding
 	})
 	c.FontPage = rapid.SampledFrom([]uint16{0, 0, 0, 0xB200, 0xB300, 0xB100, 0xDE00}).Draw(t, "font_page")
+	// the OS/2 table of the font: only version 0 carries a font page
+	sp := os2Spec{Fill: rapid.IntRange(0, 2).Draw(t, "os2_fill")}
+	if c.FontPage == 0 {
+		sp.Version = rapid.SampledFrom([]int{4, 0, 1, 5, 3}).Draw(t, "os2_version")
+		sp.Absent = rapid.IntRange(0, 9).Draw(t, "os2_absent") == 9
+	}
+	c.OS2 = &sp
 	// one table in 16 is evaluated over all 0x110000 code points (draw 0, which shrinking moves
 	// towards); the others over the BMP and the neighbourhood of every unit
 	c.Exhaustive = rapid.IntRange(0, 15).Draw(t, "reduced_universe") == 0
